@@ -2,10 +2,10 @@ SPECIFICATION Spec
 CONSTANTS
   W = 4
   F = 3
-  Threads = {t1, t2}
-  Counts = {1, 3, 5, 6}
-  MaxClaims = 2
+  Threads = {t1, t2, p1}
+  Counts = {3, 5}
+  MaxClaims = 1
   Blocked = {11}
-  Purgers = {}
+  Purgers = {p1}
 INVARIANTS BitsAccounted OwnedBitsSet AllFreeAtEnd BlockedStay
 CHECK_DEADLOCK FALSE
